@@ -111,6 +111,7 @@ pub fn run(args: &Args, report: &mut Report) {
             let n = t.evs.iter().filter(|e| e.kind == K_ITEM || e.kind == K_TS).count();
             counts.entry((t.probe, t.label.clone())).or_default().insert(t.ctx.global_id, n);
         }
+        let (expect, _) = crate::jobgen::refsem::eval_program(&p);
         // enumerate crash points
         let mut points: Vec<CrashPoint> = Vec::new();
         for ((probe, label), per_replica) in &counts {
@@ -230,7 +231,9 @@ pub fn run(args: &Args, report: &mut Report) {
                             if r.channel_closed == Some(false) {
                                 errs.push(format!("collect_channel of stream {} is still connected after the failure", r.var));
                             }
-                            if cp.at != 0 && identity_path(&p, cp.probe, r.var) && r.data.as_ref().map_or(false, |d| d.iter().any(|x| x.id == lost_id)) {
+                            // (only meaningful when that id is unique among the elements of the stream)
+                            let unique = expect.per_probe.get(&cp.probe).map_or(false, |its| its.iter().flatten().filter(|x| x.id == lost_id).count() == 1);
+                            if cp.at != 0 && unique && identity_path(&p, cp.probe, r.var) && r.data.as_ref().map_or(false, |d| d.iter().any(|x| x.id == lost_id)) {
                                 errs.push(format!("collect_channel of stream {} delivered element {lost_id}, which the panicking function never forwarded", r.var));
                             }
                         }
